@@ -189,6 +189,7 @@ def c10_oracle(payload):
             msk = gain > -150
             if msk.any() and _mx(np.abs(g4[msk] - gain[msk])) > 1e-6:
                 bad.append('rows 360 degrees apart in azimuth differ by %.3g dB' % _mx(np.abs(g4[msk] - gain[msk])))
+            r['features'] = dict(grounded_non_vertical=bool(any(p.ground.any() and (abs(p.segs[0].dirvec[0]) > 1e-9 or abs(p.segs[0].dirvec[1]) > 1e-9) for p in m.pulses)))
             r['bad'] = bad
         except Exception as e:
             r['error'] = exc_info(e)
@@ -330,13 +331,20 @@ def _in_domain(m, spec):
 def _misapplied_exact(m):
     """The code switches to the exact (on-axis) kernel when observer and source objects are connected and
     (d0 + d3) / seg_len <= 1.1, d0 / d3 the distances of the observation point from the two ends of the source
-    segment.  That is meant to recognise an observer ON the source segment; at a junction of wires with unequal
+    piece.  That is meant to recognise an observer ON the source segment; at a junction of wires with unequal
     segment lengths it also holds for observers on the OTHER wire (the shorter its segment, the wider the angle).
-    Returns True when some scalar-potential observation point that is not collinear with the source segment
-    passes that test."""
+    Returns True when some observation point that is not collinear with the source piece passes that test:
+    scalar potential: observers are the half-segment ends m +- 1/2, sources the full segments n .. n +- 1;
+    vector potential: observers are the pulse points, sources the half segments n .. n +- 1/2."""
+    def off_axis(o, a, b, L):
+        d0 = np.linalg.norm(a - o); d3 = np.linalg.norm(b - o)
+        if (d0 + d3) / L <= 1.1:
+            cr = np.linalg.norm(np.cross(a - o, b - o))
+            if cr > 1e-6 * L * L and cr / (max(d0, 1e-300) * max(d3, 1e-300)) > math.sin(math.radians(1.0)):
+                return True
+        return False
     for pn in m.pulses:
         for hn in (0, 1):
-            sg = pn.segs[hn]
             a = np.array(pn.point, dtype=float); b = np.array(pn.ends[hn], dtype=float)
             L = float(np.linalg.norm(b - a))
             if L == 0: continue
@@ -345,11 +353,8 @@ def _misapplied_exact(m):
                 if not (pm.geobj is pn.geobj or pm.geobj.is_connected(pn.geobj)): continue
                 for hm in (0, 1):
                     o = (np.array(pm.point, dtype=float) + np.array(pm.ends[hm], dtype=float)) / 2
-                    d0 = np.linalg.norm(a - o); d3 = np.linalg.norm(b - o)
-                    if (d0 + d3) / L <= 1.1:
-                        cr = np.linalg.norm(np.cross(a - o, b - o))
-                        if cr > 1e-6 * L * L and cr / (max(d0, 1e-300) * max(d3, 1e-300)) > math.sin(math.radians(1.0)):
-                            return True
+                    if off_axis(o, a, b, L): return True
+                if off_axis(np.array(pm.point, dtype=float), a, (a + b) / 2, L): return True
     return False
 
 def c01_oracle(payload):
